@@ -162,24 +162,25 @@ def main():
             })
     # rules added in the second half of the build (DESIGN.md 8.6 round 2, 8.8): appended to the technique of the check that owns them
     EXTRA = {
-        'C01': 'arity selection and the whole node -> op translation of SimOps evaluated (finite-domain evaluator) on ~2400 stand-in nodes; C17 order rules and C07/C08 rules included',
-        'C02': 'operand-mutation and whole-array-condition rules of the truth-table interpreter',
+        'C01': 'arity selection and the whole node -> op translation of SimOps evaluated (Engine M) on ~2400 stand-in nodes incl. helper methods; per-opcode specialisation of the dispatch chains; C17 order rules (evaluated traversals) and the evaluated schedule / memory-map rules of C07/C08 included',
+        'C02': 'operand-mutation and whole-array-condition rules of the truth-table interpreter; per-opcode specialisation of merged dispatch arms; views of signal memory bound to locals',
         'C03': 'operand-wiring rule of C01 included; interval refinement on any comparison linear in z_cur/z_cap',
         'C04': 'schedule, memory-map, dataset-selection and lane-control rules of C06-C08 included',
-        'C06': 'dataset selection evaluated for every mode with one/several datasets; absolute lane-control rule; no re-binding of kernel parameters; thread-index guards of the three GPU kernels evaluated for every thread of an over-sized grid; launch rules of C07 included',
-        'C07': 'level partition of the allocation pass evaluated for representative level tables; memory-map rules of C08 included',
-        'C08': 'schedule rules of C07 included',
-        'C09': 'free_index and remove_dangling_nodes evaluated on small stand-in structures; guards of Line.remove; C10 elimination/copy/pickle rules included',
-        'C10': 'graph-edit primitive rules of C09 (incl. evaluated remove_dangling_nodes) and library rules of C19 included; guard rules on the elimination / substitution loops',
-        'C11': 'bounded-exhaustive comparison of the compiled ignore-terminal with the comment language; per-call transformer construction; C10 resolve/substitute and C19 rules included; a function changed beyond the normal form on which no rule fires ends the partial check with exit 2 (undecided), never a pass',
+        'C06': 'dataset selection evaluated for every mode with one/several datasets; absolute lane-control rule; no re-binding of kernel parameters; thread-index guards of the GPU kernels evaluated for every thread of an over-sized grid; sqrt(2) applied exactly once between c_to_s and the capture kernel; launch rules of C07 and overflow propagation (C13.overflow) included',
+        'C07': 'the schedule / memory-map block of SimOps.__init__ evaluated (kvstatic/mapeval.py) on 100 generated stand-in netlists x strip_forks x c_reuse x capacities with a reference allocator: level partition, operands produced in earlier levels, release only after the last reading level (structural rules as fall-back); memory-map rules of C08 included',
+        'C08': 'pins / alloc / alias / size decided by the evaluated schedule / memory-map block (see C07); `released` only changed by order-preserving operations; schedule rules of C07 included',
+        'C09': 'C09.history: kyupy\'s own Node / Line / Circuit constructors, removers, copy(), pickling and stats evaluated along 300 generated edit histories against a shadow model of the documented semantics; free_index and remove_dangling_nodes evaluated; C10.function included',
+        'C10': 'C10.function: substitute / resolve_tlib_cells / eliminate_1to1_forks evaluated on 11 synthetic library cells x every connected-pin pattern x three host styles and on the 71 distinct implementation shapes of the built-in libraries, compared by Boolean function of every port and state-element input; C09.history (copy / pickle) and C19 rules included',
+        'C11': 'C11.netlist: the Verilog transformer applied bottom-up (Engine M) to the parse trees of 29 module descriptions with stand-in graph classes, netlist compared with the meaning of the description (ports, every pin connection, constants, assigns, branch forks); bounded-exhaustive comparison of the compiled ignore-terminal with the comment language; per-call transformer construction; C10.function and C19 rules included; a function changed beyond the normal form on which no rule fires ends the check with exit 2 (undecided), never a pass',
         'C12': 'operand-mutation rule, whole-array-condition (lane independence) rule, aliased call shapes used by LogicSim',
-        'C13': 'explicit accumulation columns resolved through the unpacking of a_ctrl[line]; kernel rules of C03 and operand-wiring rule of C01 included',
-        'C14': 'per-call transformer construction / no module-level parser state; DelayFile.iopaths/_interconnects annotation loops evaluated on stand-in circuits (which delays[line, dataset, polarity, :] cell each IOPATH/INTERCONNECT lands in); C11 rules included',
+        'C13': 'explicit accumulation columns resolved through the unpacking of a_ctrl[line]; kernel rules of C03, operand-wiring rule of C01 and memory-map rules of C08 included',
+        'C14': 'C14.records: SdfTransformer applied bottom-up to the parse tree of a small delay file; C14.landing: iopaths / interconnects evaluated on stand-in circuits (which delays[line, polarity] cell each entry lands in), array shape and axis move by recording stubs; per-call transformer construction; C11 rules included',
+        'C15': 'interpret() evaluated on every documented alias, foreign values and nested iterables; render table evaluated',
         'C16': 'memory-map rules of C08 included',
-        'C17': 's_nodes evaluated on all small node lists; visit-counter width; _locs regular expression compared with its specification on all short names; C09.remove included',
-        'C18': 'per-call transformer construction; StilFile methods never store into self',
-        'C19': 'TechLib constructor evaluated on the five library texts with bench.parse replaced by a stand-in (names, pin tables); pin_index / pin_name / pin_is_output evaluated for every cell and pin of every library; C01.wiring included',
-        'C20': 'per-call transformer construction / no module-level parser state; DefWire/DefNet geometry properties evaluated on all short routing lists',
+        'C17': 'C17.traverse: the five traversal generators evaluated on every digraph on <= 3 nodes (cut at state elements) and forward-edged graphs on 4 nodes against the stated contract; C17.locs: _locs / io_locs / s_locs evaluated on families of names; s_nodes evaluated; visit-counter width; C09.history included',
+        'C18': 'C18.maps: StilFile._maps evaluated on all chains of <= 5 entries; C18.extract: StilTransformer and StilFile.__init__ applied to the lark parse tree of a fixture STIL text; per-call transformer construction; StilFile methods never store into self',
+        'C19': 'TechLib constructor evaluated on the five library texts with bench.parse replaced by a stand-in; pin_index / pin_is_output evaluated for every cell and pin; C01.wiring, C10.function (fork elimination of implementation circuits) included',
+        'C20': 'C20.extract: DefTransformer applied to the lark parse tree of a fixture DEF text, every extracted field and the derived wire / via geometry compared with the text; DefWire/DefNet geometry properties evaluated on all short routing lists; per-call transformer construction',
     }
     for c in checks:
         if c['property_id'] in EXTRA:
@@ -206,7 +207,7 @@ def main():
         'engines': [
             {'name': 'kvstatic', 'path': '/verif/kvstatic', 'serves_properties': sorted(CHECKS),
              'kind_free_text': 'repository-specific static analysers over python ast: loader/resolver, constant folder, truth-table abstract interpreter, '
-                               'path engine, sibling normaliser, ownership lint, grammar/transformer agreement, table/column agreement, normal-form/equivalence-modulo-refactoring engine, finite-domain evaluator'},
+                               'path engine, sibling normaliser, ownership lint, grammar/transformer agreement, table/column agreement, normal-form/equivalence-modulo-refactoring engine, evaluator of code fragments on stand-in objects (Engine M)'},
         ],
         'checks': checks,
         'not_applicable': na,
